@@ -2448,7 +2448,20 @@ func (c *c15Case) corrupt(tier string, profile int) {
 			if len(p) > 4096 {
 				continue
 			}
-			switch r.Pick(3, 2, 1, 1) {
+			stepWant := ""
+			switch r.Pick(3, 2, 1, 1, 2) {
+			case 4:
+				// a well-formed protobuf TimeoutInfo whose step does not fit the uint8 the WAL message holds (255 does):
+				// it must be refused, never read back as a timeout with a truncated step
+				step := []uint32{255, 256, 257, 511, 1 << 31, 0xFFFFFFFF, uint32(r.Intn(1024))}[r.Intn(7)]
+				ti := &kcons.TimeoutInfo{Duration: time.Duration(r.Intn(1 << 30)), Height: c15U64(r), Round: c15U32(r), Step: step}
+				tm := time.Unix(1600000000+int64(r.Intn(1000)), int64(r.Intn(1000))).UTC()
+				p, _ = proto.Marshal(&kcons.TimedWALMessage{Time: tm, Msg: &kcons.WALMessage{Sum: &kcons.WALMessage_TimeoutInfo{TimeoutInfo: ti}}})
+				stepWant = "ERR"
+				if step <= 255 {
+					stepWant = c15Digest(c15Render(timeoutInfo{Duration: ti.Duration, Height: ti.Height, Round: ti.Round, Step: cstypes.RoundStepType(step)}, tm))
+				}
+				o.Mark(fmt.Sprintf("crafted-timeout-step>255:%v", step > 255))
 			case 0:
 				if len(p) > 0 {
 					p[r.Intn(len(p))] ^= byte(1 << uint(r.Intn(8)))
@@ -2467,6 +2480,9 @@ func (c *c15Case) corrupt(tier string, profile int) {
 				o.Count("crafted-frame:decodable")
 			} else {
 				o.Count("crafted-frame:undecodable")
+			}
+			if stepWant != "" && w.digest != stepWant {
+				o.Fail(c.step, "timeout-step-overflow", fmt.Sprintf("a TimeoutInfo frame reads back as %s, want %s", w.digest, stepWant))
 			}
 			eds = []c15Edit{{kind: "a", data: c15Frame(p)}}
 			if c.whole {
